@@ -386,6 +386,7 @@ class EventDispatcher(object):
         but does not in earlier versions. This is kind of irksome given that
         Python has a string type and supports introspection, but there you go.
         """
+        recorded = False  # Set once the message is in unacknowledged_messages
         try:
             item = json.loads(message.body.decode("utf8"))
             # TODO delete - original approach using one up number
@@ -395,6 +396,7 @@ class EventDispatcher(object):
 
             message_id = message.message_id
             self.unacknowledged_messages[message_id] = message
+            recorded = True
             self.state_engine.notify(item, message_id, message.redelivered)
             self.state_engine.task_dispatcher.schedule_orphaned_response_handler()
         except ValueError as e:
@@ -415,7 +417,20 @@ class EventDispatcher(object):
                     message.body, type(e).__name__, str(e)
                 )
             )
-            message.acknowledge(multiple=False)
+            """
+            The exception may have been raised after the state engine had
+            already acknowledged this message (it acknowledges once it has
+            handled, or failed, the event). Acknowledging the same delivery
+            twice is an AMQP protocol error that makes the broker close the
+            channel, which terminates the ASL Engine, so only acknowledge the
+            message here if it is still recorded as unacknowledged, and do it
+            via acknowledge() so it is removed from unacknowledged_messages.
+            """
+            message_id = message.message_id
+            if self.unacknowledged_messages.get(message_id) is message:
+                self.acknowledge(message_id)
+            elif not recorded:
+                message.acknowledge(multiple=False)
 
     def acknowledge(self, id):
         """
